@@ -1,8 +1,9 @@
 /-
 C18 — model of the history pruner migration's cutoff decision and of the two set-up steps that
 depend on it (migration/historyprunner/migrator.go `Migrate` lines 96-125, `retentionFloorWithMinAge`
-with minAge = 0, `setupBeforeStager`, `setupBeforeRestorer`). The stager / restorer passes are not
-modelled (they are exercised on the real code only). Core Lean only (linked into the driver).
+with minAge = 0, `setupBeforeStager`, `setupBeforeRestorer`). The stager / restorer passes are
+modelled at block granularity for one question only (`finish`): which kept blocks still have their
+state-history entries after a run that resumes from a given token and completes. Core Lean only (linked into the driver).
 -/
 namespace Juno.C18.Pruner
 
@@ -49,5 +50,41 @@ def restorerSeed (c : Nat) : Nat := if c = 0 then 2 ^ 64 - 1 else c - 1
 /-- The run can get through its set-up steps: the stager only touches blocks that still have their
 state update (`pruned ≤ cutoff`), and the restorer's seed block exists (`seed ≤ height`). -/
 def setupOk (i : In) (c : Nat) : Bool := decide (i.pruned ≤ c) && decide (restorerSeed c ≤ i.height)
+
+/-! ## Stager / restorer phases at block granularity (resume token vs. scratch namespace) -/
+
+/-- What matters on disk: the blocks whose state-history entries are in the live buckets, and the
+blocks whose entries are staged in the scratch namespace. -/
+structure Disk where
+  live : List Nat
+  scratch : List Nat
+  deriving Repr, DecidableEq
+
+/-- The resume token `encodeIntermediateState(stager, restorer, cutoff)`: (stager, restorer). A fresh
+run is `(0, 0)`. -/
+abbrev Token := Nat × Nat
+
+/-- One `Migrate` call that runs to completion with cutoff `c` on a chain of height `h`, resuming
+from `tok` (migrator.go `runStager`, `setupBeforeRestorer`, `runRestorer`).
+`guard = false` is the pinned code: the stager resumes at `max c stager` whatever the scratch
+namespace holds. `guard = true` is the proposed patch: a stager-phase token above the cutoff with an
+empty scratch namespace is stale, staging restarts at the cutoff. -/
+def finish (guard : Bool) (c h : Nat) (tok : Token) (d : Disk) : Disk :=
+  let s := tok.1
+  let r := tok.2
+  let s' := if guard && decide (c < s) && d.scratch.isEmpty then c else max c s
+  -- runStager: skipped when the token says it completed; a block whose live entry is missing is skipped
+  let scratch1 := if s ≤ h then d.scratch ++ d.live.filter (fun b => decide (s' ≤ b ∧ b ≤ h)) else d.scratch
+  -- setupBeforeRestorer: wipes the live history unless the restorer had started
+  let live1 := if r = 0 then [] else d.live
+  -- runRestorer from max c r: copies what the scratch namespace has (3c301f0: a missing entry is skipped)
+  let r' := max c r
+  let live2 := live1 ++ scratch1.filter (fun b => decide (r' ≤ b ∧ b ≤ h))
+  -- completion: scratch wiped
+  { live := live2, scratch := [] }
+
+/-- The kept blocks that lost their history entries. -/
+def lost (c h : Nat) (d : Disk) : List Nat :=
+  ((List.range (h + 1)).filter (fun b => decide (c ≤ b))).filter (fun b => !d.live.contains b)
 
 end Juno.C18.Pruner
